@@ -254,7 +254,7 @@ func (w *Writer) Close() {
 // may arrive in any order (Reader.Receive hands its response over after releasing the reader's
 // lock, so the drop notifications of a concurrent Reader.Close can overtake it).
 func (w *Writer) receive(pck *Packet, reader *Reader, link uint64, write uint64) bool {
-	defer verifReceive(w, reader, pck, link)()
+	defer verifReceive(w, reader, pck, link, write)()
 	w.mu.Lock()
 	defer w.mu.Unlock()
 
